@@ -1038,7 +1038,10 @@ class DFA:
         Normally the actions wait for the first character of the chained DFA. Actions which can leave (a conditional break
         or finish) cannot wait for it: the character may not be meant for the chained DFA at all. They run on a fallthrough of their own.
         """
-        if not any(x.get_target_override_mode() != ActionOverrideMode.NONE for x in actions):
+        def leaves(action):
+            return isinstance(action, (BreakAction, FinishAction)) or any(isinstance(x, (BreakAction, FinishAction)) for x in action.all_subactions())
+
+        if not any(leaves(x) for x in actions):
             self.append_after(chained_dfa, chain_actions=actions)
             return
 
